@@ -38,7 +38,7 @@ ENTRY = {
     ],
 }
 MANIFEST = {
-    "text": "Lean theorems over the executable model of String::accept_edit / perform_edit / Root::do_edit / AstGrep::edit+replace and of tree-sitter's ts_tree_edit position rule. TEXT clause in full: an edit fails exactly when out of range, the new text is the documented splice, after any history of edit/replace calls the text is the splices applied in order (acceptEdit_ok_iff, acceptEdit_text, edit_history_text, spliceSeq_eq_spliceAll). EDIT DESCRIPTION in full for texts < 4 GiB: the six InputEdit fields satisfy tree-sitter's documented requirements (offsets ordered and in range, texts equal outside the region, the three points are (row, byte column) of the offsets in the old / old / new text, the region is the inserted text; inputEdit_correct), the new end point is point_add(start point, extent of the inserted text), a line break resets the column, multi-byte characters count with all their bytes (inputEdit_new_end_point, positionForOffset_append/_newline/_multibyte). TREE clause: for the released code NOT provable and refuted: Root::do_edit applies the description to the old tree twice, which differs from one application for every length-changing edit and every tree with a node ending after the edit, and makes a root spanning the text describe a document of the wrong length (editTree_twice_ne, doEdit_misdescribes, concrete witness doEdit_counterexample = JSON `[1, 22, 333]` minus `1, `); only length-preserving edits are unaffected (doEdit_length_preserving_partial, history_length_preserving_partial). With the second tree.edit removed (FIX_C10) the tree clause holds for every history of error-free texts PROVIDED tree-sitter keeps its incremental-parsing contract (history_fixed_tree; the contract is a hypothesis). Tied to the code by random edit histories (1-6 edits: duplicate / delete items with their lines, real `replace` calls by kind and by pattern, white space and line breaks, multi-byte comments, leaf renames) on corpus documents of all 23 languages concatenated to 5-20 KB, every intermediate text error-free: text and InputEdit of the real accept_edit = model at every step; the real tree.edit applied once and twice to parsed trees = editTree; and the property's oracle: DFS dump (kind, byte range, points, named, child count) of the edited document = fresh parse.",
-    "note": "FINDING H10 (fixed by FIX_C10.patch: the second tree.edit in Root::do_edit removed): on v0.37.0 92% of the generated histories (all 23 languages) ended in a tree different from the fresh parse (ERROR nodes, lost / duplicated nodes, ranges beyond the end of the text; minimal: `[1, 22, 333]` minus `1, ` gives document [0..6]). KNOWN FINDING after the fix (tree-sitter, not ast-grep): an edit that removes the context of a keyword (`elif` in bash, `else` in C) so that a fresh parse reads the untouched word as a plain name makes the incremental parse re-use the keyword token and yield an ERROR node (about 1 in 13 000 generated edits). Trusted: Lean kernel + 3 axioms, harness/driver/check.py glue, tree-sitter as a parameter.",
+    "text": "Lean theorems over the executable model of String::accept_edit / perform_edit / Root::do_edit / AstGrep::edit+replace and of tree-sitter's ts_tree_edit position rule. TEXT clause in full: an edit fails exactly when out of range, the new text is the documented splice, after any history of edit/replace calls the text is the splices applied in order (acceptEdit_ok_iff, acceptEdit_text, edit_history_text, spliceSeq_eq_spliceAll). EDIT DESCRIPTION in full for texts < 4 GiB: the six InputEdit fields satisfy tree-sitter's documented requirements (offsets ordered and in range, texts equal outside the region, the three points are (row, byte column) of the offsets in the old / old / new text, the region is the inserted text; inputEdit_correct), the new end point is point_add(start point, extent of the inserted text), a line break resets the column, multi-byte characters count with all their bytes (inputEdit_new_end_point, positionForOffset_append/_newline/_multibyte). TREE clause: for the current code (fix fa0b302: the second tree.edit in Root::do_edit removed) the tree clause holds for every history of error-free texts PROVIDED tree-sitter keeps its incremental-parsing contract (doEditFixed_tree, history_fixed_tree; the contract is an explicit hypothesis, exercised only by the differential oracle). For the released v0.37.0 code it is NOT provable and refuted (kept as regression theorems): Root::do_edit applies the description to the old tree twice, which differs from one application for every length-changing edit and every tree with a node ending after the edit, and makes a root spanning the text describe a document of the wrong length (editTree_twice_ne, doEdit_misdescribes, concrete witness doEdit_counterexample = JSON `[1, 22, 333]` minus `1, `); only length-preserving edits are unaffected (doEdit_length_preserving_partial, history_length_preserving_partial). Tied to the code by random edit histories (1-6 edits: duplicate / delete items with their lines, real `replace` calls by kind and by pattern, white space and line breaks, multi-byte comments, leaf renames) on corpus documents of all 23 languages concatenated to 5-20 KB, every intermediate text error-free: text and InputEdit of the real accept_edit = model at every step; the real tree.edit applied once and twice to parsed trees = editTree; and the property's oracle: DFS dump (kind, byte range, points, named, child count) of the edited document = fresh parse.",
+    "note": "FINDING H10 (repaired in /repo, fix: fa0b302: the second tree.edit in Root::do_edit removed): on v0.37.0 92% of the generated histories (all 23 languages) ended in a tree different from the fresh parse (ERROR nodes, lost / duplicated nodes, ranges beyond the end of the text; minimal: `[1, 22, 333]` minus `1, ` gives document [0..6]). KNOWN FINDING after the fix (tree-sitter, not ast-grep): an edit that removes the context of a keyword (`elif` in bash, `else` in C) so that a fresh parse reads the untouched word as a plain name makes the incremental parse re-use the keyword token and yield an ERROR node (about 1 in 13 000 generated edits). Trusted: Lean kernel + 3 axioms, harness/driver/check.py glue, tree-sitter as a parameter.",
     "technique": "Lean 4 proof over hand-written executable model against an independent specification (documented splice + TSInputEdit requirements) + counter-example by evaluation + differential correspondence through cfg-guarded hooks + differential oracle (incremental vs fresh parse)",
 }
